@@ -69,7 +69,7 @@ def run_case(case):
         k = op[0]
         if k == "formula_error":
             continue            # tracebacks are recorded either way; keep the default wrapper
-        if k == "arm":
+        if k in ("arm", "set_recursion"):
             real.apply(op)
             apply_ref(rm, op)
             continue
@@ -100,6 +100,31 @@ def run_case(case):
             continue
         res = real.apply(op)
         trace = exp[2]
+        if rm.maxdepth is not None and rm.maxdepth < 100:
+            # under a small recursion limit which calls still fit depends on what is served from memory at that
+            # moment; the reference models that only approximately: the traceback is compared when both sides fail
+            # with the limit error, any other outcome is left to C05, and both sides start afresh afterwards
+            ok = True
+            if exp[0] == "err" and res[0] == "err" and exp[1] == "DeepReferenceError" \
+                    and type(mx.get_error()).__name__ == "DeepReferenceError":
+                chain = list(reversed(trace.unwound))
+                want = [(e[0], e[1], tuple(e[2]), trace.curline.get(e, 0)) for e in chain]
+                try:
+                    got = [tb_entry(n, ln) for n, ln in mx.get_traceback()]
+                except Exception as exc:
+                    return out.fail("get-traceback-raised", "%r: get_traceback() raised %r" % (op, exc), i)
+                # (the chain itself may legitimately differ in depth bookkeeping; what must hold in any case:
+                #  it starts at the requested element, every entry has a source line, no element repeats)
+                if not got or got[0][:3] != (eo[0][0], eo[0][1], tuple(eo[0][2])) or any(g[3] < 1 for g in got) \
+                        or len({g[:3] for g in got}) != len(got):
+                    return out.fail("traceback", "%r (DeepReferenceError under set_recursion(%d)): get_traceback() = %r, "
+                                    "reference chain %r" % (op, rm.maxdepth, got, want), i)
+                if got == want:
+                    out.count("limit_tracebacks_equal")
+                out.count("failing_evaluations")
+            real.m.clear_all()
+            sim.discard_many(list(sim.held))
+            continue
         ensure_spaces(sim, rm, sid)
         sim.simulate(trace, eo[0])
         if exp[0] == "ok":
